@@ -2,8 +2,8 @@
 
 Two parts:
   1. engine level (whole messages, atomic handlers): Mode-A trace differential + monitors, harness/engine_suites.py;
-  2. the two-worker race INSIDE the handlers (signal handler vs. the task result that suspends the stage), at read / CAS
-     granularity: Mode B (harness/modeb.py) on the real engine, every schedule compared with the Lean model
+  2. the two-worker races INSIDE the handlers (signal handler vs. the task result that suspends the stage, and signal handler
+     vs. StartStage's claim / plan commits), at read / CAS granularity: Mode B (harness/modeb.py) on the real engine, every schedule compared with the Lean model
      `Stab.SignalRace` (driver token `sigrace`, theorems in lean/Stab/Props/C18.lean section `race`), plus
      implementation-only monitors.
 """
@@ -29,13 +29,19 @@ RULE = ("random workflows (1-5 stages, every join type, scripted task outcomes i
         "and worker B handles the RunTask (resp. the signal) atomically at EVERY legal DB-call point of A (before A's read, every point between A's read of the stage row "
         "and its version-checked UPDATE, after A) in BOTH directions, then the queue is drained FIFO; a schedule is distinct by (scenario, direction, injection point) "
         "and non-trivial when B was really injected inside A; where two signals are pending also signal-vs-signal (lost update on the mailbox) and, thorough tier, "
-        "the nested three-worker family RunTask > signal > signal (monitors only)")
+        "the nested three-worker family RunTask > signal > signal (monitors only). "
+        "THIRD direction (scenario keys S…): the stage still NOT_STARTED with its StartStage row pending and 0/1/2 persistent signals already buffered, K in {1,2,3}; "
+        "A = the StartStage delivery with a persistent / transient SignalStage injected at every legal DB-call point (before the claim read, between the read and the "
+        "claim UPDATE, between the claim commit and the plan UPDATE, after), and the reverse direction (A = signal, B = StartStage); nested StartStage > signal > signal "
+        "at every legal point of both for one scenario (all such scenarios in the thorough tier, monitors only)")
 ASSUMPTIONS = ["delays are abstracted: budget-respecting schedules deliver a delayed message only when no immediate one is pending",
                "per-workflow circuit breaker disabled in the harness (volatile state outside the model)",
                "race suite: Mode B explores the interleavings SQLite's single-writer locking permits at transaction granularity plus all read / CAS windows "
                "(B atomic inside a window of A, nested to depth 2 in the thorough tier), not every statement-level interleaving of free-running workers (harness/modeb.py)",
                "race suite: handler_config.concurrency_max_retries has its default (3); backoff delays are shortened through the engine's own environment knobs",
-               "race suite: the task's decision to suspend depends only on how often it ran (executions 1..K suspend)"]
+               "race suite: the task's decision to suspend depends only on how often it ran (executions 1..K suspend)",
+               "race suite, StartStage direction: the started stage has predefined tasks, no mutex key, no deferred-choice group, no synthetic stages (zombie re-plan and "
+               "claim rows are C04 / C11)"]
 TRUSTED_BASE = ["Engine model (lean/Stab/Model/Engine.lean) is hand-written; tied to handlers/* by the trace differential on generated schedules only",
                 "not modelled: synthetic stages, mutex/deferred choice, OR-split conditions, pause/resume, timeouts, PostgreSQL backend",
                 "SignalRace model (lean/Stab/Model/SignalRace.lean) is hand-written from handlers/signal_stage.py, handlers/run_task/handler.py (_process_result_safely), "
@@ -44,7 +50,12 @@ TRUSTED_BASE = ["Engine model (lean/Stab/Model/Engine.lean) is hand-written; tie
                 "(stage status, version delta, mailbox length, queued RunTasks, task executions, each worker's outcome and number of rolled-back transactions, "
                 "and the quiescent state after the drain) on the enumerated schedules only",
                 "the window abstraction in harness/props/c18.py `window_of`: window k of an injection point = number of `SELECT * FROM stage_executions WHERE id` "
-                "reads A has issued + 1 if A has issued its first INSERT/UPDATE/DELETE",
+                "reads A has issued + 1 if A has issued its first INSERT/UPDATE/DELETE; for the StartStage worker `window_of_start`: its read of the stage row + the "
+                "version-checked UPDATEs of that row (claim, plan) issued so far",
+                "StartStage worker of the SignalRace model (`startStep`, hand-written from handlers/start_stage/handler.py `_start_if_ready`: claim commit with "
+                "expected_phase, plan commit, plan-conflict re-read + context merge) for a stage with predefined tasks and no mutex / deferred-choice group; the stage "
+                "context is abstracted to the mailbox length (the only key another worker writes in this race; 'key present' = non-empty), the StartTask -> RunTask "
+                "chain to one queued RunTask; tied to the code by the same per-schedule comparison (+ number of plan commits)",
                 "the model collapses the task row into the stage row (both are written in the same commits by these handlers) and the completion chain after a "
                 "non-suspending result into one status `finished`"]
 
@@ -68,9 +79,11 @@ class Scn:
     p: bool = True               # the raced signal is persistent
     post: tuple = ()             # further signals pending during the race, handled after it in FIFO order (True = persistent)
     down: bool = True            # downstream stage d
+    phase: str = "run"           # "run": RunTask(g) pending, stage RUNNING | "start": StartStage(g) pending, stage NOT_STARTED
 
     def key(self) -> str:
-        return f"K{self.K}b{self.pre}{'P' if self.p else 'T'}{''.join('p' if x else 't' for x in self.post)}{'d' if self.down else ''}"
+        return (f"{'S' if self.phase == 'start' else ''}K{self.K}b{self.pre}{'P' if self.p else 'T'}"
+                f"{''.join('p' if x else 't' for x in self.post)}{'d' if self.down else ''}")
 
     def persistent_total(self) -> int:
         return self.pre + (1 if self.p else 0) + sum(1 for x in self.post if x)
@@ -80,12 +93,21 @@ class Scn:
 
 
 def scn_from(d: dict) -> Scn:
-    return Scn(K=int(d["K"]), pre=int(d["pre"]), p=bool(d["p"]), post=tuple(bool(x) for x in d.get("post", ())), down=bool(d.get("down", True)))
+    return Scn(K=int(d["K"]), pre=int(d["pre"]), p=bool(d["p"]), post=tuple(bool(x) for x in d.get("post", ())), down=bool(d.get("down", True)),
+               phase=d.get("phase", "run"))
 
 
 def scenarios(thorough: bool) -> list[Scn]:
     s = [Scn(1, 0, True), Scn(1, 0, False), Scn(1, 1, True), Scn(1, 1, False, down=False), Scn(1, 0, True, (True,)),
          Scn(2, 0, True, down=False), Scn(2, 0, True, (True,)), Scn(2, 1, True), Scn(0, 0, True), Scn(2, 0, False, (True,), down=False)]
+    # the stage is still NOT_STARTED, its StartStage is pending: signal vs. StartStage's claim / plan commits
+    s += [Scn(1, 0, True, phase="start"), Scn(2, 1, True, phase="start"), Scn(3, 2, True, phase="start"), Scn(2, 0, True, (True,), phase="start"),
+          Scn(2, 1, False, phase="start"), Scn(1, 0, False, down=False, phase="start"), Scn(3, 1, True, (True,), phase="start"),
+          Scn(2, 2, True, down=False, phase="start")]
+    if thorough:
+        s += [Scn(1, 1, True, phase="start"), Scn(1, 2, True, phase="start"), Scn(2, 0, True, phase="start"), Scn(3, 0, True, (True, True), phase="start"),
+              Scn(3, 1, True, phase="start"), Scn(2, 1, True, (False,), phase="start"), Scn(3, 2, False, (True,), phase="start"),
+              Scn(2, 1, True, (True,), down=False, phase="start")]
     if thorough:
         s += [Scn(1, 0, True, down=False), Scn(1, 0, True, (False,)), Scn(1, 0, False, (True,)), Scn(1, 2, True), Scn(2, 1, False),
               Scn(2, 1, True, (True,)), Scn(3, 1, True, (True,)), Scn(3, 0, True, (True, True)), Scn(0, 1, True), Scn(0, 0, False), Scn(2, 2, True, (False,))]
@@ -174,8 +196,9 @@ class Lab:
                                requisite_stage_ref_ids=set())
         env.create_workflow([g] + ([mb.stage("d", {"g"})] if scn.down else []))
         env.start()
-        env.drain(max_steps=20, hold=lambda c: c.startswith("RT(g)"))
-        if [c for _, c in env.pending()] != ["RT(g)"] or env.stage_row("g")["status"] != "RUNNING":
+        first, st0 = ("SS(g)", "NOT_STARTED") if scn.phase == "start" else ("RT(g)", "RUNNING")
+        env.drain(max_steps=20, hold=lambda c: c.startswith(first))
+        if [c for _, c in env.pending()] != [first] or env.stage_row("g")["status"] != st0:
             raise RuntimeError(f"base state not reached: {env.state_line()}")
 
         def signal(n: int, persistent: bool):
@@ -189,7 +212,7 @@ class Lab:
         for j, pp in enumerate(scn.post):
             env.push(signal(scn.pre + 1 + j, pp))
         row = env.stage_row("g")
-        if row["buffered"] != scn.pre or row["status"] != "RUNNING" or mb.LEDGER:
+        if row["buffered"] != scn.pre or row["status"] != st0 or mb.LEDGER:
             raise RuntimeError(f"base state not reached (mailbox): {env.state_line()}")
         meta = {"ids": dict(env.ids), "refs": dict(env.refs), "wf_id": env.wf_id, "wf_type": env.wf_type, "v0": row["version"], "b0": row["buffered"]}
         snap = mb.snapshot(env)
@@ -211,6 +234,28 @@ def window_of(calls, at: int) -> int:
     reads = sum(1 for c in calls if c.idx < at and c.kind == "exec" and _norm(c.sql).startswith(ROW_READ))
     acted = any(c.idx < at and c.kind == "exec" and c.tag.split(".")[0] in DML for c in calls)
     return reads + (1 if acted else 0)
+
+
+def window_of_start(calls, at: int, gid: str) -> int:
+    """Window of an injection point of the StartStage worker: its read of the stage row, its claim UPDATE and its plan UPDATE
+    (the version-checked UPDATEs of THIS stage's row) issued before that DB call."""
+    def mine(c) -> bool:
+        return isinstance(c.params, dict) and c.params.get("id") == gid
+
+    reads = sum(1 for c in calls if c.idx < at and c.kind == "exec" and _norm(c.sql).startswith(ROW_READ) and mine(c))
+    writes = sum(1 for c in calls if c.idx < at and c.kind == "exec" and c.tag == "UPDATE.stage_executions" and mine(c))
+    return min(reads, 1) + writes
+
+
+def start_outcome(op) -> tuple[str, int]:
+    """(outcome.r<rollbacks>, number of plan commits) of a StartStage delivery"""
+    rb = _rollbacks(op)
+    commits = [d for k, d in op.txns if k == "commit" and "UPDATE.stage_executions" in d]
+    plans = sum(1 for d in commits if "INSERT.queue_messages" in d)
+    if isinstance(op.result, str) and op.result.startswith("raised"):
+        return f"raised.r{rb}", plans
+    out = "started" if plans else ("claimedOnly" if commits else "notStarted")
+    return f"{out}.r{rb}", plans
 
 
 def _rollbacks(op) -> int:
@@ -260,7 +305,12 @@ def _execs() -> int:
 
 
 def final_monitors(scn: Scn, reason: str, st: str, buffered: int, execs: int, wf: str, npending: int) -> list[tuple[str, str]]:
-    """Implementation-only oracles of C18 at quiescence (no model involved)."""
+    """Implementation-only oracles of C18 at quiescence (no model involved); signatures of the StartStage family end in `:start`."""
+    v = _final_monitors(scn, reason, st, buffered, execs, wf, npending)
+    return [(what, sig + ":start") for what, sig in v] if scn.phase == "start" else v
+
+
+def _final_monitors(scn: Scn, reason: str, st: str, buffered: int, execs: int, wf: str, npending: int) -> list[tuple[str, str]]:
     v: list[tuple[str, str]] = []
     P, T = scn.persistent_total(), scn.transient_total()
     desc = f"scenario {scn.key()}: stage {st}, mailbox {buffered}, task executed {execs}x, workflow {wf}, drain {reason}, {npending} message(s) pending"
@@ -287,7 +337,8 @@ def run_sched(lab: Lab, scn: Scn, snap, meta, direction: str, at: int, k: int, n
     """One schedule: A armed with B at DB call `at` (B optionally armed with C = the next signal at `nest_at`), then drain."""
     mb = lab.mb
     env = lab.env
-    a_code, b_code = {"sig": ("SG(g)", "RT(g)"), "run": ("RT(g)", "SG(g)"), "sig2": ("SG(g)", "SG(g)")}[direction]
+    a_code, b_code = {"sig": ("SG(g)", "RT(g)"), "run": ("RT(g)", "SG(g)"), "sig2": ("SG(g)", "SG(g)"),
+                      "start": ("SS(g)", "SG(g)"), "sigS": ("SG(g)", "SS(g)")}[direction]
 
     def mk(e):
         _fix(e, meta)
@@ -313,8 +364,13 @@ def run_sched(lab: Lab, scn: Scn, snap, meta, direction: str, at: int, k: int, n
     row = env.stage_row("g")
     execs = _execs()
     pend = env.pending()
-    q = sum(1 for _, c in pend if c == "RT(g)")
-    if direction in ("sig", "run") and nest_at is None:
+    q = sum(1 for _, c in pend if c in ("RT(g)", "ST(g)"))
+    if direction in ("start", "sigS") and nest_at is None:
+        sig_op, start_op = (B, A) if direction == "start" else (A, B)
+        so, plans = start_outcome(start_op)
+        race = (f"race st={_abs_status(env)} dv={row['version'] - meta['v0']} b={row['buffered']} q={q} e={execs} pl={plans} "
+                f"sig={sig_outcome(sig_op)} start={so}")
+    elif direction in ("sig", "run") and nest_at is None:
         sig_op, run_op = (A, B) if direction == "sig" else (B, A)
         race = (f"race st={_abs_status(env)} dv={row['version'] - meta['v0']} b={row['buffered']} q={q} e={execs} "
                 f"sig={sig_outcome(sig_op)} run={run_outcome(run_op, execs > 0)}")
@@ -335,7 +391,7 @@ def run_sched(lab: Lab, scn: Scn, snap, meta, direction: str, at: int, k: int, n
 
 def points_of(lab: Lab, scn: Scn, snap, meta, direction: str) -> tuple[list, list[int]]:
     mb = lab.mb
-    a_code = "RT(g)" if direction == "run" else "SG(g)"
+    a_code = {"run": "RT(g)", "start": "SS(g)"}.get(direction, "SG(g)")
 
     def mk(e):
         _fix(e, meta)
@@ -343,6 +399,10 @@ def points_of(lab: Lab, scn: Scn, snap, meta, direction: str) -> tuple[list, lis
 
     calls = mb.enumerate_points(lab.env, snap, mk)
     return calls, [c.idx for c in calls if c.legal] + [len(calls)]
+
+
+def window_at(calls, at: int, direction: str, meta: dict) -> int:
+    return window_of_start(calls, at, meta["ids"]["g"]) if direction == "start" else window_of(calls, at)
 
 
 def unit(args: dict) -> dict:
@@ -367,7 +427,7 @@ def unit(args: dict) -> dict:
         for n_k, at in enumerate(legal):
             if n_k % shard[0] != shard[1]:
                 continue
-            k = window_of(calls, at)
+            k = window_at(calls, at, direction, meta)
             r = run_sched(lab, scn, snap, meta, direction, at, k)
             if args.get("nested"):
                 # third worker (the next pending signal) at every legal point of B as it ran inside A at `at`
@@ -386,6 +446,8 @@ def unit(args: dict) -> dict:
 
 def model_line(scn: Scn, direction: str, k: int, v0: int, b0: int) -> str:
     post = ",".join("1" if x else "0" for x in scn.post) or "-"
+    if scn.phase == "start":
+        return f"sigrace start cas K={scn.K} dir={'start' if direction == 'start' else 'sig'} k={k} p={1 if scn.p else 0} v={v0} b={b0} post={post}"
     return f"sigrace cas K={scn.K} dir={direction} k={k} p={1 if scn.p else 0} v={v0} b={b0} post={post}"
 
 
@@ -397,8 +459,18 @@ def _pool(n: int):
 
 def plan_units(scns: list[Scn], thorough: bool) -> list[dict]:
     units: list[dict] = []
+    nested_start = 0
     for scn in scns:
         d = asdict(scn)
+        if scn.phase == "start":
+            units.append({"scn": d, "dir": "start"})
+            units.append({"scn": d, "dir": "sigS"})
+            if any(scn.post) and scn.p and scn.pre > 0 and (thorough or nested_start == 0):
+                # StartStage > signal > signal, nested at every legal point of both (monitors only)
+                nested_start += 1
+                for r in range(4):
+                    units.append({"scn": d, "dir": "start", "shard": [4, r], "nested": True})
+            continue
         units.append({"scn": d, "dir": "sig"})
         # a persistent signal injected between the RunTask worker's reload and its CAS costs ~3 s of real backoff
         # (execute_atomic's hard-coded inner retry): one such point per unit
@@ -410,7 +482,7 @@ def plan_units(scns: list[Scn], thorough: bool) -> list[dict]:
             if thorough:
                 for r in range(6):
                     units.append({"scn": d, "dir": "run", "shard": [6, r], "nested": True})
-    units.sort(key=lambda u: (0 if u.get("nested") else 1, 0 if u["dir"] == "run" else 1))
+    units.sort(key=lambda u: (0 if u.get("nested") and u["dir"] == "run" else 1, 0 if u["dir"] == "run" else 1))
     return units
 
 
@@ -425,7 +497,9 @@ def digest(ctx, results: list[dict]) -> None:
             mbx.setdefault("calls", {})[f"{Scn(**{**res['scn'], 'post': tuple(res['scn']['post'])}).key()}/{res['dir']}"] = " ".join(res["calls"])
         for r in res["schedules"]:
             allsched.append((res, r))
-    allsched.sort(key=lambda x: json.dumps(x[1]["sched"], sort_keys=True))
+    # simplest schedules first: a monitor keeps the first witness per signature
+    allsched.sort(key=lambda x: ("nest_at" in x[1]["sched"], x[1]["sched"]["dir"] == "sig2", len(x[1]["sched"]["scn"]["post"]),
+                                 x[1]["sched"]["scn"]["pre"], json.dumps(x[1]["sched"], sort_keys=True)))
     for res, r in allsched:
         sched = r["sched"]
         scn = scn_from(sched["scn"])
@@ -445,9 +519,9 @@ def digest(ctx, results: list[dict]) -> None:
             ctx.violation(f"{what}; schedule: direction {sched['dir']}, B injected before DB call {sched['at']} of A (window k={sched['k']})", sig, replay_obj)
         if r["inside"]:
             ctx.sample({"schedule": sched, "observed": r["impl"]})
-        if sched["dir"] in ("sig", "run") and "nest_at" not in sched:
+        if sched["dir"] in ("sig", "run", "start", "sigS") and "nest_at" not in sched:
             for part in r["impl"].split(" "):
-                if part.startswith(("sig=", "run=")):
+                if part.startswith(("sig=", "run=", "start=")):
                     ctx.tag("race:" + part.split(".")[0])
             inputs.append(sched)
             lines.append(model_line(scn, sched["dir"], sched["k"], res["v0"], res["b0"]))
@@ -518,12 +592,13 @@ def replay_race(sched: dict) -> dict:
         env, snap, meta = lab.base(scn)
         calls, legal = points_of(lab, scn, snap, meta, sched["dir"])
         at, k = sched.get("at"), sched.get("k")
-        if at not in legal or (k is not None and window_of(calls, at) != k):
-            cands = [i for i in legal if k is None or window_of(calls, i) == k]
+        window_of_ = lambda cs, i: window_at(cs, i, sched["dir"], meta)  # noqa: E731
+        if at not in legal or (k is not None and window_of_(calls, at) != k):
+            cands = [i for i in legal if k is None or window_of_(calls, i) == k]
             if not cands:
                 return {"sched": sched, "violations": [], "trace": [], "note": f"no legal injection point in window {k}", "calls": [c.text() for c in calls]}
             at = cands[0]
-        r = run_sched(lab, scn, snap, meta, sched["dir"], at, window_of(calls, at), nest_at=sched.get("nest_at"))
+        r = run_sched(lab, scn, snap, meta, sched["dir"], at, window_of_(calls, at), nest_at=sched.get("nest_at"))
         r["calls"] = [c.text() for c in calls]
         return r
     finally:
@@ -535,7 +610,8 @@ def replay(ctx, body) -> int:
     if isinstance(rp, dict) and "modeb" in rp:
         r = replay_race(rp["modeb"])
         s = r["sched"]
-        print(f"scenario {scn_from(s['scn']).key()}: direction {s['dir']} (A = {'signal handler' if s['dir'] != 'run' else 'RunTask handler'}), "
+        who = {"run": "RunTask handler", "start": "StartStage handler"}.get(s["dir"], "signal handler")
+        print(f"scenario {scn_from(s['scn']).key()}: direction {s['dir']} (A = {who}), "
               f"B injected before DB call {s.get('at')} of A, window k={s.get('k')}")
         print("  DB calls of A (un-armed; * = inside a write transaction):", " ".join(r.get("calls", [])))
         for line in r.get("trace", []):
@@ -547,7 +623,7 @@ def replay(ctx, body) -> int:
         print("  after the race :", r.get("post_race"))
         print("  after the drain:", (r.get("final") or {}).get("state"), (r.get("final") or {}).get("drain"))
         print("  observed       :", r.get("impl"))
-        out = ctx.lean([model_line(scn_from(s["scn"]), s["dir"], s["k"], 0, scn_from(s["scn"]).pre)]) if s["dir"] in ("sig", "run") and "nest_at" not in s else None
+        out = ctx.lean([model_line(scn_from(s["scn"]), s["dir"], s["k"], 0, scn_from(s["scn"]).pre)]) if s["dir"] in ("sig", "run", "start", "sigS") and "nest_at" not in s else None
         if out:
             print("  model (v=0)    :", out[0])
         for what, sig in r["violations"]:
